@@ -323,6 +323,18 @@ def main(argv=None):
                     errors.append(("baseline", f"{len(missing)} obligations of the committed baseline were not generated, e.g. {missing[:3]}"))
                     exit_code = 3
 
+    # history lemmas (DESIGN.md 3.4): machine-checked induction from the step contracts discharged above to the
+    # history statement; only reported when every step contract it rests on was discharged in this very run
+    history, h_errs, h_und = run_history_lemmas(prop, results, a.only)
+    for e in h_errs:
+        errors.append(e)
+        if exit_code == 0:
+            exit_code = 3
+    for u in h_und:
+        undecided.append(u)
+        if exit_code == 0:
+            exit_code = 2
+
     wall = time.time() - t0
     ev = {
         "property_id": prop, "tier": a.tier, "seed": seed, "level": "proof",
@@ -348,6 +360,7 @@ def main(argv=None):
             "interpreter_conformance": {"obligation_sets_with_native_reading": conf["osets"], "random_inputs": conf["samples"],
                                         "obligation_values_compared_cpython_vs_pyvc": conf["compared"],
                                         "disagreements": len(conf["disagreements"])},
+            "history_lemmas": history,
             "paths_explored": sum(rj["paths"] for rj in results),
             "source_sha256": dict(sorted(_LOADER.source_sha.items())),
             "samples": samples or [{"obligation": n} for n in current_names[:3]],
@@ -380,6 +393,99 @@ def main(argv=None):
                 if ob["status"] != "discharged":
                     print("      ", ob["status"], n, ob.get("model"))
     return exit_code
+
+
+_ALLOWED_AXIOMS = {"propext", "Classical.choice", "Quot.sound"}
+
+
+def _queue_frame_fact():
+    """Syntactic frame condition the FIFO lemma needs: in the real socket.py the pending queue is only mutated
+    by __init__, _enqueue_message and _drain_message_queue, and writer.write is only called by _write."""
+    import ast
+    path = os.path.join(REPO, "pyairtouch", "comms", "socket.py")
+    tree = ast.parse(open(path).read())
+    bad = []
+    mut = {"append", "appendleft", "popleft", "pop", "clear", "extend", "extendleft", "remove", "insert", "rotate", "reverse"}
+
+    def is_queue(n):
+        return isinstance(n, ast.Attribute) and n.attr == "_message_queue"
+    for cls in [n for n in ast.walk(tree) if isinstance(n, ast.ClassDef)]:
+        for fn in [n for n in ast.walk(cls) if isinstance(n, (ast.FunctionDef, ast.AsyncFunctionDef))]:
+            for n in ast.walk(fn):
+                if isinstance(n, ast.Call) and isinstance(n.func, ast.Attribute):
+                    if is_queue(n.func.value) and n.func.attr in mut and fn.name not in ("_enqueue_message", "_drain_message_queue"):
+                        bad.append(f"{fn.name}: _message_queue.{n.func.attr}()")
+                    if n.func.attr in ("write", "writelines") and isinstance(n.func.value, ast.Attribute) and n.func.value.attr == "_writer" \
+                            and fn.name != "_write":
+                        bad.append(f"{fn.name}: _writer.{n.func.attr}()")
+                if isinstance(n, (ast.Assign, ast.AugAssign, ast.AnnAssign, ast.Delete)):
+                    tg = n.targets if isinstance(n, (ast.Assign, ast.Delete)) else [n.target]
+                    for t in tg:
+                        base = t.value if isinstance(t, ast.Subscript) else t
+                        if is_queue(base) and fn.name not in ("__init__", "_enqueue_message", "_drain_message_queue"):
+                            bad.append(f"{fn.name}: assignment / del on _message_queue")
+    return bad
+
+
+def run_history_lemmas(prop, results, only):
+    path = os.path.join(VERIF, "lemmas", "hypotheses.json")
+    out, errs, und = [], [], []
+    if only or not os.path.exists(path):
+        return out, errs, und
+    status = {f"{rj['name']} :: {n}": ob["status"] for rj in results for n, ob in rj["obligations"].items()}
+    for lem in json.load(open(path))["lemmas"]:
+        thms = lem["properties"].get(prop)
+        if not thms:
+            continue
+        hyps = [o for obs in lem["steps"].values() for o in obs]
+        entry = {"file": lem["file"], "theorems": thms, "step_contracts_used": lem["steps"], "not_covered": lem.get("not_covered", []),
+                 "checker": "lean 4 kernel (lean <file>); allowed axioms: propext, Classical.choice, Quot.sound"}
+        out.append(entry)
+        missing = [o for o in hyps if o not in status]
+        if missing:
+            entry["status"] = "hypotheses missing"
+            errs.append(("history-lemma", f"{len(missing)} step-contract obligations named by {lem['file']} are not generated, e.g. {missing[:2]}"))
+            continue
+        open_ = [o for o in hyps if status[o] != "discharged"]
+        if open_:
+            entry["status"] = "not applicable in this run: step contracts not discharged: " + "; ".join(open_[:3])
+            continue
+        bad = _queue_frame_fact()
+        if bad:
+            entry["status"] = "not applicable: frame condition of the lemma does not hold: " + "; ".join(bad[:3])
+            und.append(("history-lemma", f"the queue / writer is touched outside the functions under step contract ({bad[0]}): "
+                        f"the induction of {lem['file']} does not cover this code"))
+            continue
+        t1 = time.time()
+        try:
+            pr = subprocess.run(["lean", os.path.join(VERIF, lem["file"])], capture_output=True, text=True, timeout=600)
+        except Exception as e:  # noqa: BLE001
+            entry["status"] = f"lean could not be run: {e}"
+            errs.append(("history-lemma", f"lean could not be run on {lem['file']}: {e}"))
+            continue
+        entry["lean_seconds"] = round(time.time() - t1, 2)
+        axioms = {}
+        for line in pr.stdout.splitlines():
+            if "depends on axioms:" in line:
+                name = line.split("'")[1]
+                axioms[name] = [x.strip() for x in line.split("[", 1)[1].rstrip("]").split(",") if x.strip()]
+            elif "does not depend on any axioms" in line:
+                axioms[line.split("'")[1]] = []
+        entry["axioms"] = {t: axioms.get(t) for t in thms}
+        problems = []
+        if pr.returncode != 0:
+            problems.append(f"lean exit {pr.returncode}: {(pr.stdout + pr.stderr)[:300]}")
+        for t in thms:
+            if t not in axioms:
+                problems.append(f"theorem {t} not found in the lean output")
+            elif not set(axioms[t]) <= _ALLOWED_AXIOMS:
+                problems.append(f"theorem {t} uses {sorted(set(axioms[t]) - _ALLOWED_AXIOMS)}")
+        if problems:
+            entry["status"] = "lean rejected the lemma: " + " | ".join(problems)
+            errs.append(("history-lemma", entry["status"][:300]))
+        else:
+            entry["status"] = "checked"
+    return out, errs, und
 
 
 def _status(rj):
